@@ -932,6 +932,15 @@ def main(argv):
     coqdir = os.path.join(os.path.dirname(os.path.dirname(os.path.abspath(__file__))), "coq")
     only = set(argv[1:])
     changed = []
+    for name, modname, relsrc in getattr(specs, "PLAIN", ()):
+        if only and name not in only:
+            continue
+        import importlib
+        mod = importlib.import_module(modname)
+        text = mod.translate(os.path.join(repo, "src", "tea_tasting", relsrc))
+        p = os.path.join(coqdir, "genP", f"{name}.v")
+        if write_if_changed(p, text):
+            changed.append(p)
     for name, spec in specs.SPECS.items():
         if only and name not in only and not any(name in specs.SPECS[o].get("uses", ()) for o in only if o in specs.SPECS):
             continue
